@@ -289,7 +289,15 @@ func emitK6(o *lib.Out, scratch string) {
 			time.Sleep(10 * time.Millisecond)
 		}
 	}
+	waitDone := func(k int) {
+		dl := time.Now().Add(8 * time.Second)
+		for nsqd.VerifHits("notify:done") < k && time.Now().Before(dl) {
+			time.Sleep(5 * time.Millisecond)
+		}
+	}
+	base := nsqd.VerifHits("notify:done")
 	n.GetTopic("t0")
+	waitDone(base + 1) // the creation's Notify goroutine has been served and has finished
 	waitRegs([]string{"T:t0"}, 5*time.Second)
 	// the deletion's Notify goroutine is parked just before it offers the OLD topic to the loop
 	reached, release := nsqd.VerifArmPark("notify:before-send", 1)
@@ -299,17 +307,10 @@ func emitK6(o *lib.Out, scratch string) {
 	case <-time.After(5 * time.Second):
 		lib.Fatalf("k6: the deletion's Notify goroutine never reached the point")
 	}
-	done0 := nsqd.VerifHits("notify:done")
-	n.GetTopic("t0") // the NEW topic's notification is served first: REGISTER t0
-	dl := time.Now().Add(5 * time.Second)
-	for nsqd.VerifHits("notify:done") == done0 && time.Now().Before(dl) {
-		time.Sleep(5 * time.Millisecond)
-	}
-	done1 := nsqd.VerifHits("notify:done")
-	release() // now the OLD topic's: it is exiting, so UNREGISTER t0
-	for nsqd.VerifHits("notify:done") == done1 && time.Now().Before(dl) {
-		time.Sleep(5 * time.Millisecond)
-	}
+	n.GetTopic("t0")   // the NEW topic's notification is served first: REGISTER t0
+	waitDone(base + 2) // (the parked goroutine cannot be the one that finished)
+	release()          // now the OLD topic's: it is exiting, so UNREGISTER t0
+	waitDone(base + 3)
 	// give the loop many heartbeats: a PING never re-registers
 	t0 := time.Now()
 	regs := waitRegs([]string{"T:t0"}, 15*heartbeat)
